@@ -3,6 +3,8 @@ package props
 import (
 	"fmt"
 	"math/rand"
+	"os"
+	"path/filepath"
 	"sort"
 	"strings"
 
@@ -261,7 +263,19 @@ func c16CLI(c *Ctx, o *Obs, gen string, n int, rooted bool, seed int64, valid bo
 	if rooted {
 		args = append(args, "-r")
 	}
+	toFile := (seed/3)%2 == 0
+	outPath := filepath.Join(c.Tmp, "c16.out")
+	if toFile {
+		_ = os.Remove(outPath)
+		args = append(args, "-o", outPath)
+	}
 	res := runCLI(c, "", args...)
+	if toFile {
+		// the result is what the command left in the file it was told to write
+		b, _ := os.ReadFile(outPath)
+		res.Stdout = string(b)
+		o.Ev("cli_output_to_file", 1)
+	}
 	o.Ev("cli:"+gen, 1)
 	what := "gotree " + strings.Join(args, " ")
 	if res.TimedOut {
@@ -334,7 +348,18 @@ func c16Enumerate(c *Ctx, o *Obs, r *rand.Rand, idx int) {
 		if rooted {
 			args = append(args, "-r")
 		}
+		toFile := (idx/20)%2 == 0
+		outPath := filepath.Join(c.Tmp, "c16topo.out")
+		if toFile {
+			_ = os.Remove(outPath)
+			args = append(args, "-o", outPath)
+		}
 		res := runCLI(c, "", args...)
+		if toFile {
+			b, _ := os.ReadFile(outPath)
+			res.Stdout = string(b)
+			o.Ev("cli_output_to_file", 1)
+		}
 		o.Ev("cli:topologies", 1)
 		what := "gotree " + strings.Join(args, " ")
 		if !o.Check(!res.Panic && !res.Signal && !res.TimedOut, "cli_crash", what+": "+res.brief(), ctx, "gen", "topologies") {
